@@ -84,6 +84,13 @@ static char *sock_acc;
 static size_t sock_acc_n;
 static int stall_next;
 
+/* The process id is a source of nondeterminism too (a daemon may put it into a log line): simulated.  Nothing in
+ * the host or in libc's raise() goes through this symbol. */
+pid_t getpid(void)
+{
+    return 4242;
+}
+
 static void sock_bufs(int small)
 {
     int v = small ? 2304 : (32 << 20);
